@@ -475,6 +475,16 @@ impl RequestIdManager {
 		self.id_kind.into_id(self.current_id.next())
 	}
 
+	/// Reserve `len` consecutive request IDs to be used in a batch request.
+	///
+	/// The IDs are taken from the same counter as [`RequestIdManager::next_request_id`] such that
+	/// they are not handed out to any other request.
+	pub fn next_batch_id_range(&self, len: u64) -> Result<Range<u64>, Error> {
+		let len_usize = usize::try_from(len)
+			.map_err(|_| Error::Custom("BatchID range wrapped; restart the client or try again later".to_string()))?;
+		generate_batch_id_range(Id::Number(self.current_id.next_n(len_usize)), len)
+	}
+
 	/// Get a handle to the `IdKind`.
 	pub fn as_id_kind(&self) -> IdKind {
 		self.id_kind
@@ -511,6 +521,14 @@ impl CurrentId {
 	fn next(&self) -> u64 {
 		self.0
 			.fetch_add(1, Ordering::Relaxed)
+			.try_into()
+			.expect("usize -> u64 infallible, there are no CPUs > 64 bits; qed")
+	}
+
+	/// Reserve `n` consecutive IDs and return the first one.
+	fn next_n(&self, n: usize) -> u64 {
+		self.0
+			.fetch_add(n, Ordering::Relaxed)
 			.try_into()
 			.expect("usize -> u64 infallible, there are no CPUs > 64 bits; qed")
 	}
